@@ -199,9 +199,8 @@
       (let ((src (make-bytevector decode-src-length))
             (dst (make-bytevector decode-dst-length)))
         (let lp ((offset 0))
-          (let ((src-len
-                 (+ offset
-                    (read-bytevector! src in offset decode-src-length))))
+          (let* ((n (read-bytevector! src in offset decode-src-length))
+                 (src-len (if (eof-object? n) offset (+ offset n))))
             (cond
              ((= src-len decode-src-length)
               ;; read a full chunk: decode, write and loop
